@@ -350,6 +350,25 @@ class PropResult:
                        "case": replay_obj}, f, indent=1, default=str)
         self.violations.append({"fingerprint": fingerprint, "what": what, "replay": path})
 
+    def merge(self, other, label):
+        """Fold the result of a contributing family into this one."""
+        self.states += other.states
+        self.transitions += other.transitions
+        self.traces += other.traces
+        self.evaluations += other.evaluations
+        self.distinct_nontrivial += other.distinct_nontrivial
+        if other.rule:
+            self.rule = (self.rule + " | " if self.rule else "") + "[%s] %s" % (label, other.rule)
+        self.samples = list(self.samples) + [{"from_family": label, **s} if isinstance(s, dict) else s
+                                             for s in other.samples[:2]]
+        self.violations += other.violations
+        self.drift += other.drift
+        self.assumptions += [a for a in other.assumptions if a not in self.assumptions]
+        for j in other.jobs:
+            self.jobs.append({"family": label, **j})
+        for k, v in other.extra.items():
+            self.extra["%s:%s" % (label, k)] = v
+
     def to_json(self):
         return dict(self.__dict__)
 
